@@ -47,6 +47,9 @@ func DefaultCfg() Cfg {
 		SubsidyThreshold: 1000, MaxStake: 150, Pool: 1000000}
 }
 
+// LastHandlerErr is the reason the staking converter logged for the transaction applied last ("" = none).
+var LastHandlerErr string
+
 var installed bool
 var installedCfg Cfg
 
@@ -58,7 +61,22 @@ func Install(c Cfg) {
 	installed = true
 	installedCfg = c
 	if os.Getenv("VERIF_LOG") == "" { // VERIF_LOG=1 keeps the repository's own log output (debugging aid)
-		logging.Root().SetHandler(logging.DiscardHandler())
+		// the staking converter reports the handler check that refused a transaction only in its log: keep that
+		logging.Root().SetHandler(logging.FuncHandler(func(r *logging.Record) error {
+			switch r.Msg {
+			case "tx failed", "tx decode failed", "not enough gas for validator creation":
+				LastHandlerErr = r.Msg
+				for i := 0; i+1 < len(r.Ctx); i += 2 {
+					if k, ok := r.Ctx[i].(string); ok && k == "err" {
+						LastHandlerErr = fmt.Sprint(r.Ctx[i+1])
+					}
+				}
+				if r.Msg != "tx failed" {
+					LastHandlerErr = r.Msg
+				}
+			}
+			return nil
+		}))
 	}
 	params.InitNetworkId(params.NetworkIdForTestCase)
 	params.StakeUint.SetInt64(10)
@@ -72,11 +90,11 @@ func Install(c Cfg) {
 	v5.MaxStakes = map[params.ValidatorRole]uint64{params.RoleChancellor: c.MaxStake, params.RoleSenator: c.MaxStake, params.RoleHouse: c.MaxStake}
 	v5.SubsidyThreshold = c.SubsidyThreshold
 	v5.MinDelegationTokens = big.NewInt(10)
-	v5.MaxDelegationForValidator = 3
+	v5.MaxDelegationForValidator = 6 // a validator with several delegators can be penalised
 	v5.MaxDelegationForDelegator = 2
 	v5.InactivityPenaltyWaitRounds = c.InactWait
 	v5.PenaltyFractionForInactive = c.PenaltyInactive
-	v5.ExpelledRoundForInactive = 4
+	v5.ExpelledRoundForInactive = 6 // longer than a period: a status change of an expelled validator can be refused
 	v5.ExpelledRoundForDoubleSign = 8
 	v5.StakeLookBack = 4 // blocks are imported one at a time (Appendix B)
 	params.Versions[params.YouV5] = v5
@@ -250,6 +268,7 @@ type ATx struct {
 	C int64  `json:"c"`           // commission rate (1/10000)
 	R int64  `json:"r"`           // risk obligation (1/10000)
 	G int64  `json:"g,omitempty"` // gas limit override (miner stage)
+	Z string `json:"z,omitempty"` // variant: "op" (operator is not the sender), "pub" (malformed main key), "norcpt" (no recipient)
 }
 
 // ABlock is one abstract block.
@@ -356,8 +375,15 @@ func (w *World) MakeTxAt(a *ATx, nonce uint64, balance *big.Int) *types.Transact
 	case "create":
 		v := w.Who[a.V]
 		to, gas = sm, 1100000
-		data = stakingData(stk.ValidatorCreate, &stk.TxCreateValidator{Name: a.V, OperatorAddress: from.Addr, Coinbase: v.Addr,
-			MainPubKey: v.Key.PubComp, BlsPubKey: v.Key.BlsPkB, Value: x, Nonce: nonce, CommissionRate: uint16(a.C),
+		op, pub := from.Addr, []byte(v.Key.PubComp)
+		if a.Z == "op" {
+			op = w.Who["u3"].Addr
+		}
+		if a.Z == "pub" {
+			pub = []byte{1, 2, 3, 4, 5, 6, 7, 8, 9, 10}
+		}
+		data = stakingData(stk.ValidatorCreate, &stk.TxCreateValidator{Name: a.V, OperatorAddress: op, Coinbase: v.Addr,
+			MainPubKey: pub, BlsPubKey: v.Key.BlsPkB, Value: x, Nonce: nonce, CommissionRate: uint16(a.C),
 			RiskObligation: uint16(a.R), AcceptDelegation: params.AcceptDelegation, Role: params.ValidatorRole(a.F)})
 	case "update":
 		to = sm
@@ -368,7 +394,11 @@ func (w *World) MakeTxAt(a *ATx, nonce uint64, balance *big.Int) *types.Transact
 		data = stakingData(stk.ValidatorDeposit, &stk.TxValidatorDeposit{MainAddress: vaddr(), Value: x, Nonce: nonce})
 	case "withdraw":
 		to = sm
-		data = stakingData(stk.ValidatorWithDraw, &stk.TxValidatorWithdraw{MainAddress: vaddr(), Recipient: w.Who[a.B].Addr, Value: x, Nonce: nonce})
+		rcpt := w.Who[a.B].Addr
+		if a.Z == "norcpt" {
+			rcpt = common.Address{}
+		}
+		data = stakingData(stk.ValidatorWithDraw, &stk.TxValidatorWithdraw{MainAddress: vaddr(), Recipient: rcpt, Value: x, Nonce: nonce})
 	case "status":
 		to = sm
 		data = stakingData(stk.ValidatorChangeStatus, &stk.TxValidatorChangeStatus{MainAddress: vaddr(), Status: uint8(a.F), Nonce: nonce})
@@ -386,11 +416,18 @@ func (w *World) MakeTxAt(a *ATx, nonce uint64, balance *big.Int) *types.Transact
 		data = stakingData(stk.DelegationSettle, &stk.TxDelegationSettle{Validator: vaddr()})
 	case "garbage": // undecodable staking message: accepted, failed, all gas used
 		to, data = sm, []byte{0xff, 0x01, 0x02}
+	case "badaction": // a well-formed staking message with an action the module does not know
+		bs, _ := rlp.EncodeToBytes(&stk.Message{Action: stk.ActionType(0x7f), Payload: []byte{0xc0}})
+		to, data = sm, bs
 	case "biggas": // the same with a gas limit of which only two fit into a block
 		to, data, gas = sm, []byte{0xff, 0x01, 0x02}, 3000000
-	case "drain": // a transfer that leaves the sender 5000 LU: its later transactions cannot pay for their gas any more
+	case "drain": // a transfer that leaves the sender 5000 LU (or X): its later transactions cannot pay any more
 		to, gas = w.Who[a.B].Addr, params.TxGas
-		value = new(big.Int).Sub(balance, new(big.Int).Add(big.NewInt(5000), new(big.Int).Mul(price, big.NewInt(int64(params.TxGas)))))
+		leave := int64(5000)
+		if a.X > 0 {
+			leave = a.X // leave exactly X
+		}
+		value = new(big.Int).Sub(balance, new(big.Int).Add(big.NewInt(leave), new(big.Int).Mul(price, big.NewInt(int64(params.TxGas)))))
 		if value.Sign() < 0 {
 			value = new(big.Int)
 		}
@@ -437,6 +474,8 @@ type TxResult struct {
 	Receipt  *types.Receipt
 	GasLimit uint64
 	Price    int64
+	// HandlerErr is the handler check that made a staking transaction fail (from the converter's log)
+	HandlerErr string
 }
 
 // Payout is one AddReward call seen by the block's detail recorder.
@@ -525,6 +564,7 @@ func (w *World) BuildBlock(ab *ABlock, h *BuildHooks) (*types.Block, types.Recei
 		} else {
 			sdb.Prepare(tx.Hash(), common.Hash{}, len(txs))
 			snap := sdb.Snapshot()
+			LastHandlerErr = ""
 			r, gas, err := bc.Processor().ApplyTransaction(tx, w.Signer, sdb, bc, hdr, &coinbase, &hdr.GasUsed, hdr.GasRewards, gp, cfg, local.FakeRecorder())
 			if err != nil {
 				sdb.RevertToSnapshot(snap)
@@ -533,6 +573,9 @@ func (w *World) BuildBlock(ab *ABlock, h *BuildHooks) (*types.Block, types.Recei
 				txs = append(txs, tx)
 				rcpts = append(rcpts, r)
 				res.Receipt, res.GasUsed, res.Failed = r, gas, r.Status == types.ReceiptStatusFailed
+				if res.Failed {
+					res.HandlerErr = LastHandlerErr
+				}
 			}
 		}
 		if res.Refused {
